@@ -148,13 +148,156 @@ end Triple
 
 /-! ## the generic invariant -/
 
+/-- a host call never turns the layer root into a non-directory -/
+def KeepRoot (f : Layer → Except Nat Layer) : Prop :=
+  ∀ L L', f L = .ok L' → (L []).isDir = true → (L' []).isDir = true
+
+theorem set_root {L : Layer} {n : Name} {p : Path} {nd : Node} : (L.set (n :: p) nd) [] = L [] := by
+  simp [Layer.set]
+
+theorem updFile_isDir {L : Layer} {id : Nat} {g : Node → Node} {q : Path} (h : (L q).isDir = true) :
+    ((L.updFile id g) q).isDir = true := by
+  unfold Layer.updFile
+  cases hq : L q <;> simp_all [Node.isDir]
+
+theorem keepRoot_hMk (p : Path) (n : Name) (nd : Node) : KeepRoot (hMk · p n nd) := by
+  intro L L' h hd
+  simp only [hMk] at h
+  split at h
+  · cases h; rw [set_root]; exact hd
+  · cases h
+
+theorem keepRoot_hLink (src p : Path) (n : Name) : KeepRoot (hLink · src p n) := by
+  intro L L' h hd
+  simp only [hLink] at h
+  split at h
+  · cases h
+  · cases h
+  · exact keepRoot_hMk p n _ L L' h hd
+
+theorem keepRoot_hUnlink (p : Path) (n : Name) : KeepRoot (hUnlink · p n) := by
+  intro L L' h hd
+  simp only [hUnlink] at h
+  split at h
+  · cases h
+  · cases h
+  · cases h; rw [set_root]; exact hd
+
+theorem keepRoot_hRmdir (p : Path) (n : Name) : KeepRoot (hRmdir · p n) := by
+  intro L L' h hd
+  simp only [hRmdir] at h
+  split at h
+  · cases h
+  · split at h
+    · cases h
+    · cases h; rw [set_root]; exact hd
+  · cases h
+
+theorem keepRoot_hCreateWhiteout (p : Path) (n : Name) : KeepRoot (hCreateWhiteout · p n) := by
+  intro L L' h hd
+  simp only [hCreateWhiteout] at h
+  split at h
+  · cases h; exact hd
+  · exact keepRoot_hMk p n _ L L' h hd
+  · cases h
+
+theorem keepRoot_hDeleteWhiteout (p : Path) (n : Name) : KeepRoot (hDeleteWhiteout · p n) := by
+  intro L L' h hd
+  simp only [hDeleteWhiteout] at h
+  split at h
+  · exact keepRoot_hUnlink p n L L' h hd
+  · cases h; exact hd
+  · cases h
+
+theorem set_isDir_root {L : Layer} {p : Path} {m o x : Nat} (hd : (L []).isDir = true) :
+    ((L.set p (.dir m o x)) []).isDir = true := by
+  simp only [Layer.set]
+  split
+  · rfl
+  · exact hd
+
+theorem keepRoot_hSetOpaque (p : Path) : KeepRoot (hSetOpaque · p) := by
+  intro L L' h hd
+  simp only [hSetOpaque] at h
+  split at h
+  · cases h; exact set_isDir_root hd
+  · cases h
+  · cases h
+
+theorem keepRoot_hWrite (p : Path) (off : Nat) (data : List Nat) : KeepRoot (hWrite · p off data) := by
+  intro L L' h hd
+  simp only [hWrite] at h
+  split at h
+  · cases h; exact updFile_isDir hd
+  · cases h
+
+theorem keepRoot_hOpen (p : Path) (t : Bool) : KeepRoot (hOpen · p t) := by
+  intro L L' h hd
+  simp only [hOpen] at h
+  split at h
+  · cases h
+  · split at h
+    · cases h; exact updFile_isDir hd
+    · cases h; exact hd
+  · cases h; exact hd
+  · cases h
+  · cases h
+
+theorem keepRoot_hChmod (p : Path) (mode : Nat) : KeepRoot (fun L => hChmod L p mode) := by
+  intro L L' h hd
+  simp only [hChmod] at h
+  split at h
+  · cases h
+  · cases h; exact updFile_isDir hd
+  · cases h; exact set_isDir_root hd
+  · cases h; exact updFile_isDir hd
+  · cases h
+  · cases h; exact hd
+
+theorem keepRoot_hTruncate (p : Path) (n : Nat) : KeepRoot (fun L => hTruncate L p n) := by
+  intro L L' h hd
+  simp only [hTruncate] at h
+  split at h
+  · cases h
+  · cases h; exact updFile_isDir hd
+  · cases h
+  · cases h
+
+theorem keepRoot_hSetX (p : Path) (v : Nat) : KeepRoot (fun L => hSetX L p v) := by
+  intro L L' h hd
+  simp only [hSetX] at h
+  split at h
+  · cases h
+  · cases h; exact updFile_isDir hd
+  · cases h; exact set_isDir_root hd
+  · cases h
+
+theorem keepRoot_hRmX (p : Path) : KeepRoot (fun L => hRmX L p) := by
+  intro L L' h hd
+  simp only [hRmX] at h
+  split at h
+  · cases h
+  · split at h
+    · cases h
+    · exact keepRoot_hSetX p 0 L L' h hd
+
+/-- discharge a `KeepRoot` side condition -/
+macro "keeproot" : tactic =>
+  `(tactic| first
+    | exact keepRoot_hMk _ _ _ | exact keepRoot_hLink _ _ _ | exact keepRoot_hUnlink _ _
+    | exact keepRoot_hRmdir _ _ | exact keepRoot_hCreateWhiteout _ _ | exact keepRoot_hDeleteWhiteout _ _
+    | exact keepRoot_hSetOpaque _ | exact keepRoot_hWrite _ _ _ | exact keepRoot_hOpen _ _
+    | exact keepRoot_hChmod _ _ | exact keepRoot_hTruncate _ _ | exact keepRoot_hSetX _ _
+    | exact keepRoot_hRmX _ | assumption)
+
 structure InvSpec where
   φ : Real → Prop
   ψ : Call → Prop
   D : Disk → Prop
   child : ∀ (r c : Real), φ r → c.layer = r.layer → c.inUpper = r.inUpper → φ c
   call : ∀ (r : Real) (m : Method), φ r → r.inUpper = true → ψ ⟨r.layer, m⟩
-  disk : ∀ (r : Real) (L : Layer) (d : Disk), φ r → r.inUpper = true → D d → D (d.setLayer r.layer L)
+  disk : ∀ (r : Real) (L L' : Layer) (d : Disk), φ r → r.inUpper = true → D d →
+    d.layer r.layer = some L → ((L []).isDir = true → (L' []).isDir = true) → D (d.setLayer r.layer L')
 
 variable (I : InvSpec)
 
@@ -309,7 +452,8 @@ theorem freshId_inv : Triple (GInv I) freshId (fun _ => GInv I) (GInv I) := by
   exact ⟨hs.1, hs.2.1, hs.2.2⟩
 
 theorem layerCall_inv (r : Real) (m : Method) (f : Layer → Except Nat Layer) (hr : I.φ r)
-    (hu : r.inUpper = true) : Triple (GInv I) (layerCall r.layer m f) (fun _ => GInv I) (GInv I) := by
+    (hu : r.inUpper = true) (hk : KeepRoot f) :
+    Triple (GInv I) (layerCall r.layer m f) (fun _ => GInv I) (GInv I) := by
   intro s hs
   have hlog : ∀ c ∈ s.log ++ [⟨r.layer, m⟩], I.ψ c := by
     intro c hc
@@ -320,9 +464,11 @@ theorem layerCall_inv (r : Real) (m : Method) (f : Layer → Except Nat Layer) (
   refine ⟨fun a s' h => ?_, fun e s' h => ?_⟩ <;> unfold layerCall at h <;> simp only at h <;>
     split at h
   · cases h
-  · split at h
+  · rename_i L hL
+    split at h
     · cases h
-    · cases h; exact ⟨hs.1, hlog, I.disk r _ _ hr hu hs.2.2⟩
+    · rename_i L' hf
+      cases h; exact ⟨hs.1, hlog, I.disk r L L' _ hr hu hs.2.2 hL (hk L L' hf)⟩
   · cases h; exact ⟨hs.1, hlog, hs.2.2⟩
   · split at h
     · cases h; exact ⟨hs.1, hlog, hs.2.2⟩
@@ -333,7 +479,7 @@ theorem mkNode_inv (r : Real) (m : Method) (n : Name) (node : Node) (hr : I.φ r
   unfold Real.mkNode
   by_cases hu : r.inUpper = true
   · simp only [hu, Bool.not_true, Bool.false_eq_true, if_false]
-    refine Triple.bind (layerCall_inv r m _ hr hu) fun _ => ?_
+    refine Triple.bind (layerCall_inv r m _ hr hu (by keeproot)) fun _ => ?_
     exact Triple.pure' fun s hs => ⟨⟨childReal_ok (w := false) hr hu, rfl⟩, hs⟩
   · simp only [Bool.not_eq_true] at hu
     simp only [hu, Bool.not_false, if_true]
@@ -344,7 +490,7 @@ theorem link_inv (r : Real) (src : Path) (n : Name) (hr : I.φ r) :
   unfold Real.link
   by_cases hu : r.inUpper = true
   · simp only [hu, Bool.not_true, Bool.false_eq_true, if_false]
-    refine Triple.bind (layerCall_inv r _ _ hr hu) fun _ => ?_
+    refine Triple.bind (layerCall_inv r _ _ hr hu (by keeproot)) fun _ => ?_
     exact Triple.pure' fun s hs => ⟨⟨childReal_ok (w := false) hr hu, rfl⟩, hs⟩
   · simp only [Bool.not_eq_true] at hu
     simp only [hu, Bool.not_false, if_true]
@@ -355,7 +501,7 @@ theorem createWhiteout_inv (r : Real) (n : Name) (hr : I.φ r) :
   unfold Real.createWhiteout
   by_cases hu : r.inUpper = true
   · simp only [hu, Bool.not_true, Bool.false_eq_true, if_false]
-    refine Triple.bind (layerCall_inv r _ _ hr hu) fun _ => ?_
+    refine Triple.bind (layerCall_inv r _ _ hr hu (by keeproot)) fun _ => ?_
     exact Triple.pure' fun s hs => ⟨⟨childReal_ok (w := true) hr hu, rfl⟩, hs⟩
   · simp only [Bool.not_eq_true] at hu
     simp only [hu, Bool.not_false, if_true]
